@@ -363,7 +363,7 @@ def main():
            'end Gen', '']
     write_if_changed(os.path.join(GEN, 'Checks', 'Index.lean'), '\n'.join(chk))
     imports.append('import Gen.Checks.Index')
-    write_if_changed(os.path.join(LEAN, 'Gen.lean'), '\n'.join(imports) + '\n')
+    # (Gen.lean is written below, once the acknowledgement-map module is known)
     audit = ['import Gen'] + ['#print axioms Gen.%s_violations' % modname(f) for f in maps] + ['#print axioms Gen.index_keys_unambiguous']
     write_if_changed(os.path.join(GEN, 'AuditC16.lean'), '\n'.join(audit) + '\n')
     # remove stale generated modules
@@ -382,6 +382,11 @@ def main():
     sys.path.insert(0, os.path.dirname(os.path.abspath(__file__)))
     import xdoc
     side['doc'] = xdoc.build(MAPDIR, maps, dataele, I, WORKGEN)
+    # map-side hypotheses of C06R.ack997_revalidates about the shipped 997 map and control maps: tools/xack.py
+    import xack
+    ack_imports = xack.emit(GEN, maps, dataele, I, write_if_changed, modname)
+    write_if_changed(os.path.join(LEAN, 'Gen.lean'), '\n'.join(imports + list(ack_imports)) + '\n')
+    side['ack_theorems'] = xack.THEOREMS if ack_imports else []
     with open(os.path.join(WORKGEN, 'tables.json'), 'w') as f:
         json.dump(side, f)
     print('xlate: %d map files translated, %d failed, %d strings' % (len(maps), len(failed), len(I.rev)))
